@@ -45,6 +45,19 @@ func padText(p Pad, inSource bool) string {
 			return ""
 		}
 		return strings.Repeat("{{''}}", p.Len/6)
+	case "q": // comments whose bodies hold unpaired quotes and braces, text between them
+		unit := "{# don't {touch #}Q{# 5\" pipe, it's } fine #}R"
+		n := p.Len / len(unit)
+		if !inSource {
+			return strings.Repeat("QR", n)
+		}
+		return strings.Repeat(unit, n)
+	case "i": // closed block constructs that render nothing: many bodies, no nesting
+		unit := "{%if 0%}{%endif%}"
+		if !inSource {
+			return ""
+		}
+		return strings.Repeat(unit, p.Len/len(unit))
 	case "b":
 		unit := "A { B } C % D # E \\ F ' G \" H\n"
 		var sb strings.Builder
